@@ -33,7 +33,7 @@ FAMILIES = ['small', 'small', 'small', 'multi', 'as', 'fusion', 'circ', 'fuscirc
 def strategy(tier):
     from hypothesis import strategies as st
     # strict domain: zero tolerance
-    strict = cveval.strategy_for(FAMILIES, ref_kw=dict(utr_styles=('gencode',)))
+    strict = cveval.strategy_for(FAMILIES, ref_kw=dict(utr_styles=('gencode', 'gencode', 'ensembl')))
     if tier == 'quick' or os.environ.get('VERIF_STRICT_ONLY'):
         return strict
     # wild domain: every rule, exception settings and UTR style; discrepancies are
